@@ -80,7 +80,7 @@ class RejectSmallN(Family):
     differential = False
 
     def configs(self, tier):
-        return [{"strategy": s, "n": nn} for s in ALL6 for nn in ("sym", 1, 0, -3)]
+        return [{"strategy": s, "n": nn} for s in ALL6 for nn in ("sym", 1, 0, -3, "1.5", "np.float64(1.9)", "True", "np.int64(1)")]
 
     def run(self, ctx, inst, strategy, n):
         from traffic_weaver import rfa
@@ -90,6 +90,8 @@ class RejectSmallN(Family):
             ctx.assume(ctx.lt(nv, 2))
             if not ctx.symbolic and nv >= 2:
                 return
+        elif isinstance(n, str):
+            nv = eval(n, {"np": np})
         else:
             nv = n
         try:
@@ -98,6 +100,25 @@ class RejectSmallN(Family):
             ctx.claim("n<2-rejected", True)
             return
         ctx.claim("n<2-rejected", False, {"strategy": strategy})
+
+
+class NumpyIntegerN(Family):
+    name = "rfa-numpy-integer-n"
+    doc = "the oversampling factor given as a NumPy integer behaves like the Python int"
+
+    def configs(self, tier):
+        return [{"strategy": s, "m": 3, "n": n} for s in ALL6 for n in (2, 3)]
+
+    def run(self, ctx, inst, strategy, m, n):
+        x, y, X, ys = inputs(ctx, m, None)
+        xs, zs = make(ctx, strategy, x, y, np.int64(n), {}).rfa()
+        xs2, zs2 = make(ctx, strategy, x, y, n, {}).rfa()
+        L = (m - 1) * n + 1
+        ctx.claim("length", len(xs) == L and len(zs) == L, {"strategy": strategy})
+        ctx.claim("type-ys-ndarray", isinstance(zs, np.ndarray) and np.ndim(zs) == 1)
+        if len(xs) == L and len(zs) == L and strategy != "CubicSplineRFA":
+            for i in range(L):
+                ctx.claim("same-as-python-int", ctx.And(ctx.eq(xs[i], xs2[i]), ctx.eq(zs[i], zs2[i])), {"i": i})
 
 
 class ViaWeaver(Family):
@@ -142,4 +163,4 @@ if __name__ == "__main__":
     ap = argparse.ArgumentParser()
     ap.add_argument("--tier", default="quick")
     a = ap.parse_args()
-    sys.exit(run_check("C04", "rfa grid", [Grid(), UserFunction(), RejectSmallN(), ViaWeaver()], a.tier, META))
+    sys.exit(run_check("C04", "rfa grid", [Grid(), UserFunction(), RejectSmallN(), NumpyIntegerN(), ViaWeaver()], a.tier, META))
